@@ -3,11 +3,12 @@
 typhon.geographical builds a scikit-learn BallTree / KDTree and asks it for
 neighbours; both steps allocate memory proportional to the data and are the
 places where a MemoryError really occurs.  `faulty(real, plan)` returns a
-class with the interface typhon uses (constructor, query_radius, attribute
-pass-through) that raises MemoryError at the k-th construction or the k-th
-query counted over the run; everything else is delegated to the real tree.
-The plan is fixed from the tape before the run starts.
+subclass of the real tree class (module level, so that an index holding such a
+tree can still be pickled and deep-copied) that raises MemoryError at the k-th
+construction or the k-th radius query counted over the run; everything else is
+the real tree.  The plan is fixed from the tape before the run starts.
 """
+from sklearn.neighbors import BallTree, KDTree
 
 
 class TreeFaultPlan:
@@ -17,7 +18,7 @@ class TreeFaultPlan:
         self.builds = 0
         self.queries = 0
         self.fired = {}
-        self.last_fired = None      # "build" / "query" when the most recent call failed
+        self.last_fired = None      # set when the most recent call failed
 
     def _fire(self, kind):
         self.fired[kind] = self.fired.get(kind, 0) + 1
@@ -29,22 +30,43 @@ class TreeFaultPlan:
         return k
 
 
+PLAN = [TreeFaultPlan()]      # the plan of the current run
+
+
+def _count_build():
+    plan = PLAN[0]
+    plan.builds += 1
+    if plan.builds == plan.build_fail_at:
+        plan._fire("alloc_fail_in_tree_build")
+
+
+def _count_query():
+    plan = PLAN[0]
+    plan.queries += 1
+    if plan.queries == plan.query_fail_at:
+        plan._fire("alloc_fail_in_tree_query")
+
+
+class FaultyBallTree(BallTree):
+    def __init__(self, *a, **kw):
+        _count_build()
+        super().__init__(*a, **kw)
+
+    def query_radius(self, *a, **kw):
+        _count_query()
+        return super().query_radius(*a, **kw)
+
+
+class FaultyKDTree(KDTree):
+    def __init__(self, *a, **kw):
+        _count_build()
+        super().__init__(*a, **kw)
+
+    def query_radius(self, *a, **kw):
+        _count_query()
+        return super().query_radius(*a, **kw)
+
+
 def faulty(real, plan):
-    class Tree:
-        def __init__(self, points, **kw):
-            plan.builds += 1
-            if plan.builds == plan.build_fail_at:
-                plan._fire("alloc_fail_in_tree_build")
-            self._t = real(points, **kw)
-
-        def query_radius(self, *a, **k):
-            plan.queries += 1
-            if plan.queries == plan.query_fail_at:
-                plan._fire("alloc_fail_in_tree_query")
-            return self._t.query_radius(*a, **k)
-
-        def __getattr__(self, name):
-            return getattr(self.__dict__["_t"], name)
-
-    Tree.__name__ = real.__name__
-    return Tree
+    PLAN[0] = plan
+    return FaultyKDTree if real.__name__ in ("KDTree", "FaultyKDTree") else FaultyBallTree
